@@ -327,10 +327,18 @@ func c13Body(sigBlock, sigFinal string, kinds []string) func(rt *rapid.T, c *har
 			c.NonTrivial()
 		}
 
+		heightCacheOnA := rapid.SampledFrom([]bool{false, false, true}).Draw(rt, "heightCacheOnTrafficNode")
+		if heightCacheOnA {
+			c.Label("traffic-node-runs-with-height-cache")
+		}
 		// ---- execution ----
 		run := func(withTraffic bool) ([]chain.BlockResult, map[string][]chain.KV, int, int) {
 			w.ent = 0
-			n := chain.NewNode(&w.spec)
+			// the in-memory height cache (--useCache) is one more node-local cache: in a third of the cases the node that
+			// serves the traffic also runs with it, the reference node never does
+			spec := w.spec
+			spec.Cache = withTraffic && heightCacheOnA
+			n := chain.NewNode(&spec)
 			// a production node always runs with its own servicer key registered; this is what creates the global
 			// session cache that dispatch fills and claim validation reads
 			work, err := os.MkdirTemp(os.Getenv("VERIF_WORK"), "c13-")
